@@ -21,7 +21,7 @@ sys.path.insert(0, os.path.dirname(os.path.abspath(__file__)))
 import z3
 from engine import build, eir, eir_lin, loopcut
 from engine.dom_lin import LinCtx, LV
-from engine.eir import Ptr, Obj, is_conc, ExecError
+from engine.eir import Ptr, Obj, is_conc, ExecError, MemViolation
 from engine.framework import Check, Violation, Inconclusive
 
 B = "embedded_pairing::bls12_381::"
@@ -138,6 +138,8 @@ def install_gt(I, record):
             return c[1].e
         if p.obj.name.endswith("Fq123oneE"):
             return 0
+        if I.unwritten(p.obj, p.off, 576):
+            raise MemViolation("uninit", "read of an uninitialised target-group element at %r" % (p,))
         raise ExecError("abstract-bytes", "target-group element expected at %r" % (p,))
 
     def wr(p, e):
@@ -331,10 +333,13 @@ def ob_gt_nodiv(alias=False):
             pos = args[1] if args[1] < (1 << 31) else args[1] - (1 << 32)
             return int(0 <= pos < 256 and (k >> pos) & 1)
         I.add_intercept(CORE + r"BigInt<256>::bit\(int\) const", h_bit, "BigInt<256>::bit")
-        I.call_named(fname, [Ptr(this, 0), Ptr(a, 0), Ptr(sc, 0)])
-        cell = this.cells.get(0)
         ce = {"exponent": hex(k), "alias": alias}
         key = "gt-nodiv:%s" % ("zero" if k == 0 else "exponent")
+        try:
+            I.call_named(fname, [Ptr(this, 0), Ptr(a, 0), Ptr(sc, 0)])
+        except MemViolation as e:
+            raise Violation(key + ":" + e.kind, "exponentiate_gt_nodiv for the exponent %#x: %s" % (k, e), ce)
+        cell = this.cells.get(0)
         if cell is None or not isinstance(cell[1], Pow):
             raise Violation(key, "exponentiate_gt_nodiv does not write its result for the exponent %#x" % k, ce)
         if cell[1].e % R_ORDER != k % R_ORDER:
@@ -456,7 +461,7 @@ def main(argv=None):
     chk.trusted = ["T7: a^q = a^x on GT; conjugate = inverse on unitary elements; C04: square_cyclotomic = square on the cyclotomic subgroup, multiply, frobenius_map",
                    "C02: BigInt<256>::compare / subtract", "z3"]
     # lower layers whose specifications this check relies on: their obligations are part of this check's claim (framework.Check.include)
-    for dep in ['C02', 'C03', 'C04', 'C18', 'C19']:
+    for dep in ['C02', 'C03', 'C04', 'C18', 'C19', 'C20']:
         chk.include(dep)
     chk.run()
     chk.finish()
